@@ -19,8 +19,9 @@ RULE = (
     "modes x reader and writer x delimited and fixed x 1-3 consecutive runs on one CID. The recorded call log must equal "
     "the sequence M-protocol predicts (reset at least once before the first row of each data set and never later; value "
     "hooks only for guarded-clean cells in column order up to the first rejected cell; check_row in declaration order "
-    "until the first veto; check_at_end once in declaration order up to the first failure; cleanup of every check; no "
-    "calls for header rows or rows beyond the limit). Plus the same classes written to a plugin folder and loaded by "
+    "until the first veto; check_at_end once for every check in declaration order, whether or not an earlier one failed; cleanup of every check; no "
+    "calls for header rows or rows beyond the limit). A third of the CIDs use classes defined late in the process, a sixth classes that derive "
+    "from other user classes, a sixth get their checks through Cid.add_check() instead of C rows. Plus the same classes written to a plugin folder and loaded by "
     "import_plugins and by the command line's --plugins in subprocesses, logging to a JSONL file. A case is (CID, table, "
     "mode, API, runs), distinct by digest; non-trivial with a rejected cell, a vetoing/failing check or an active "
     "header/limit."
@@ -76,6 +77,15 @@ def register():
     if not _registered:
         _registered["field"], _registered["check"] = _define("Rec")
     return _registered
+
+
+def register_sub():
+    """Recording classes that derive from the recording classes instead of from the abstract bases: user classes resolve
+    by name however deep they sit in the class hierarchy (e.g. a format refining IntegerFieldFormat)."""
+    register()
+    if "sub_field" not in _registered:
+        _registered["sub_field"] = type("SubRecFieldFormat", (_registered["field"],), {})
+        _registered["sub_check"] = type("SubRecCheck", (_registered["check"],), {})
 
 
 def register_late():
@@ -182,10 +192,9 @@ class Unjudged(Exception):
 
 
 def predict_close(model, calls):
+    # every check is asked for its end-of-data verdict, also after an earlier-declared check has failed
     for c in model.rec_checks:
         calls.append(["check_at_end", c["desc"]])
-        if c["behaviour"] == "fail":
-            break
     for c in model.rec_checks:
         calls.append(["cleanup", c["desc"]])
 
@@ -280,18 +289,35 @@ def check_case(ctx, model, table, plan):
     from cutplace import errors, interface
 
     register()
-    case = {"cid": dict(model.to_json(), rec_checks=model.rec_checks, late_classes=getattr(model, "late_classes", False)), "table": table, "plan": [list(p) for p in plan]}
-    cid = interface.Cid()
+    classes = getattr(model, "classes", None) or ("LateRec" if getattr(model, "late_classes", False) else "Rec")
+    via_add_check = getattr(model, "via_add_check", False)
+    case = {"cid": dict(model.to_json(), rec_checks=model.rec_checks, classes=classes, via_add_check=via_add_check), "table": table, "plan": [list(p) for p in plan]}
     del LOG[:]
-    late = getattr(model, "late_classes", False)
-    if late:
+    if classes == "LateRec":
         register_late()
-        cid = interface.Cid()
+    elif classes == "SubRec":
+        register_sub()
+    cid = interface.Cid()
     try:
-        cid.read("<c20>", cid_rows(model, "LateRec", "LateRec") if late else cid_rows(model))
+        if via_add_check:
+            # the programmatic way to supply checks: Cid.add_check() with an instance of the user's class
+            cid.read("<c20>", [r for r in cid_rows(model, classes, classes) if r[0] != "C"])
+            check_class = {"Rec": _registered["check"], "LateRec": _registered.get("late_check"), "SubRec": _registered.get("sub_check")}[classes]
+            for c in model.rec_checks:
+                cid.add_check(check_class(c["desc"], c["behaviour"], cid.field_names))
+            ctx.count("cids.with-checks-from-add_check")
+        else:
+            cid.read("<c20>", cid_rows(model, classes, classes))
     except errors.InterfaceError as error:
         ctx.case(case, True)
-        ctx.violation("C20:class-not-resolved", case, "recording class registered in the process was not resolved by its name", observed=error)
+        ctx.violation("C20:class-not-resolved:%s" % classes, case, "recording class registered in the process was not resolved by its name", observed=error)
+        return
+    except Exception as error:
+        from cpverif import core
+
+        mod, fn = core.innermost_cutplace_frame(error)
+        ctx.case(case, True)
+        ctx.violation("C20:cid-crash:%s@%s.%s" % (type(error).__name__, mod, fn), case, "building the CID with user classes failed with an internal error", observed=error)
         return
     del LOG[:]
     names = [c["desc"] for c in model.rec_checks]
@@ -485,9 +511,14 @@ def run(ctx):
         rng = ctx.rng("case", i)
         model, table = gen_case(rng)
         # from the second third of the run on, half of the CIDs use classes that are defined only then
-        model.late_classes = (i * 3 >= n) and rng.random() < 0.5
-        if model.late_classes:
+        model.classes = "Rec"
+        if (i * 3 >= n) and rng.random() < 0.5:
+            model.classes = "LateRec"
             ctx.count("cids.with-late-defined-classes")
+        elif rng.random() < 0.25:
+            model.classes = "SubRec"
+            ctx.count("cids.with-indirect-subclasses")
+        model.via_add_check = bool(model.rec_checks) and rng.random() < 0.17
         check_case(ctx, model, table, gen_plan(rng, model, table))
     for i in range(ctx.pick(12, 300)):
         if ctx.mine(i):
@@ -500,5 +531,7 @@ def replay(ctx, case):
     model = RM.CidModel.from_json(c)
     model.rec_checks = c["rec_checks"]
     model.late_classes = c.get("late_classes", False)
+    model.classes = c.get("classes")
+    model.via_add_check = c.get("via_add_check", False)
     if "plan" in case:
         check_case(ctx, model, case["table"], [tuple(p) for p in case["plan"]])
